@@ -119,6 +119,9 @@ func runC03(r *run) {
 	_ = slog.RegisterLevel(slog.Level(43), "c03b", slog.RegWithTreatedAsLevel(slog.ErrorLevel))
 	_ = slog.RegisterLevel(slog.Level(44), "c03c", slog.RegWithTreatedAsLevel(slog.InfoLevel), slog.RegWithPrintToErrorDevice())
 	_ = slog.RegisterLevel(slog.Level(45), "c03d", slog.RegWithTreatedAsLevel(slog.WarnLevel), slog.RegWithPrintToErrorDevice(false))
+	// the switch given several values: the last one counts
+	_ = slog.RegisterLevel(slog.Level(46), "c03e", slog.RegWithPrintToErrorDevice(false, true))
+	_ = slog.RegisterLevel(slog.Level(47), "c03f", slog.RegWithPrintToErrorDevice(true, false), slog.RegWithTreatedAsLevel(slog.InfoLevel))
 	slog.SetFlags(slog.GetFlags() &^ slog.Lcaller)
 	ctx := context.Background()
 	size := func(f *os.File) int64 {
@@ -130,7 +133,7 @@ func runC03(r *run) {
 	if r.tier == "thorough" {
 		n = 6000
 	}
-	probes := []int{4, 2, 3, 5, 40, 41, 9, 11, 8, 0, 7, 42, 43, 44, 45, -8, -3}
+	probes := []int{4, 2, 3, 5, 40, 41, 9, 11, 8, 0, 7, 42, 43, 44, 45, -8, -3, 46, 47}
 	lvls := []int{4, 2, 5, 41, 40, 42, 43}
 	for h := 0; h < n; h++ {
 		log := &evLog{}
@@ -160,6 +163,7 @@ func runC03(r *run) {
 		r.emit("C03 regerr 41", "ok")
 		r.emit("C03 regerr 42", "ok")
 		r.emit("C03 regerr 44", "ok")
+		r.emit("C03 regerr 46", "ok")
 		st := []string{"C03", "settable"}
 		for _, s := range settable {
 			st = append(st, fmt.Sprint(s))
@@ -250,7 +254,7 @@ func runC03(r *run) {
 				normal, errs, leveled = []int{1000}, []int{1001}, map[int][]int{}
 			}
 		}
-		errClass := map[int]bool{0: true, 1: true, 2: true, 3: true, 11: true, 41: true, 42: true, 44: true}
+		errClass := map[int]bool{0: true, 1: true, 2: true, 3: true, 11: true, 41: true, 42: true, 44: true, 46: true}
 		isSettable := map[int]bool{3: true, 4: true, 6: true}
 		// besides one record per severity class: blank Println() calls (severity Always, delivered as a single line
 		// feed) on a logger whose own threshold is an error-class level or a level with leveled writers — the routing
